@@ -1,6 +1,7 @@
 """C02 — paths and update operators equal their defining reductions (docs/C02.md)."""
 import json, os, sys
 import verif as V
+import c01
 
 PROP = "C02"
 PROPS = "props/C02.v"
@@ -50,6 +51,12 @@ def run(tier, seed):
         "gets a fresh address; GC address reuse of the allocator's uintptr keys is not modelled",
     ]
     proved = c.prove(PROPS)
+    # C02b: path-tracking soundness of the reference semantics (coq/sem) on the navigation fragment; its
+    # non-vacuity examples run on builtin.jq of the current tree (coq/gen/GenBuiltins.v, regenerated here)
+    exe_sem, _ = V.build_harness("sem")
+    if exe_sem is not None:
+        c01.regen_builtins(c, exe_sem)
+    c.prove("props/C02b.v")
     exe_h, hlog = V.build_harness("c02")
     stats = {}
     if exe_h is None:
